@@ -24,7 +24,8 @@ DRIVER = Driver("driver_c01", "Drivers/C01.lean")
 NKEYS = 4
 SIZE = 1000
 CFGS = ["raw", "facade", "facade_secret", "raw_purge", "facade_purge", "facade_pickle",
-        "raw_fine", "facade_fine", "facade_secret_fine", "raw_purge_fine", "facade2", "facade2_mixed"]
+        "raw_fine", "facade_fine", "facade_secret_fine", "raw_purge_fine", "facade2", "facade2_mixed",
+        "raw_purge", "facade_purge"]          # the purge-task configurations twice per round: they need the most histories
 
 TRUSTED = [
     "Lean 4.33.0 kernel; axioms of every theorem audited to be within {propext, Classical.choice, Quot.sound}",
@@ -122,7 +123,7 @@ def corpus_cases():
 
 def run(chk: Check) -> int:
     proof = proof_stage(PROP, "driver_c01", chk.thorough) if not getattr(chk, "skip_proof", False) else None
-    n = chk.budget(6000, 150000)
+    n = chk.budget(10500, 154000)
     found = 0
     evaluations = 0
     distinct = set()
